@@ -81,13 +81,18 @@ func (bc *Bytecode) fixObjects(modules *ugo.ModuleMap) error {
 				return fmt.Errorf("module '%s' not found", name)
 			}
 
+			builtinMod, ok := bmod.(*ugo.BuiltinModule)
+			if !ok {
+				return fmt.Errorf("module '%s' is not a builtin module", name)
+			}
+
 			// copy items from given module to decoded object if key exists in obj
 			for item := range obj {
 				if item == ugo.AttrModuleName {
 					// module name may not present in given map, skip it.
 					continue
 				}
-				o := bmod.(*ugo.BuiltinModule).Attrs[item]
+				o := builtinMod.Attrs[item]
 				// if item not exists in module, nil will not pass type check
 				want := reflect.TypeOf(obj[item])
 				got := reflect.TypeOf(o)
